@@ -324,6 +324,7 @@ fn trigger_handler(
                     cb_ref.exotic,
                     ExoticObject::Function(JsFunction::PromiseAllFulfill { .. })
                         | ExoticObject::Function(JsFunction::PromiseAllReject(_))
+                        | ExoticObject::Function(JsFunction::PromiseAllSettledSettle { .. })
                 )
             } else {
                 false
@@ -1009,6 +1010,67 @@ pub fn promise_race(
     Ok(Guarded::with_guard(JsValue::Object(result_promise), guard))
 }
 
+/// Create one `{ status, value }` / `{ status, reason }` record of a Promise.allSettled result
+fn create_settled_record(
+    interp: &mut Interpreter,
+    guard: &Guard<JsObject>,
+    value: JsValue,
+    is_fulfill: bool,
+) -> Gc<JsObject> {
+    let status_key = PropertyKey::String(interp.intern("status"));
+    let result_key = PropertyKey::String(interp.intern(if is_fulfill { "value" } else { "reason" }));
+    let status = if is_fulfill { "fulfilled" } else { "rejected" };
+
+    // Keep the value alive while the record is allocated
+    let _value_guard = interp.guard_value(&value);
+    let record = interp.create_object(guard);
+    {
+        let mut record_ref = record.borrow_mut();
+        record_ref.prototype = Some(interp.object_prototype.cheap_clone());
+        record_ref.set_property(status_key, JsValue::String(status.into()));
+        record_ref.set_property(result_key, value);
+    }
+    record
+}
+
+/// Handle Promise.allSettled settle - called when one of the pending input promises settles
+pub fn handle_promise_allsettled_settle(
+    interp: &mut Interpreter,
+    state: &Rc<PromiseAllSharedState>,
+    index: usize,
+    value: JsValue,
+    is_fulfill: bool,
+) -> Result<(), JsError> {
+    let guard = interp.heap.create_guard();
+    let record = create_settled_record(interp, &guard, value, is_fulfill);
+
+    {
+        let mut results = state.results.borrow_mut();
+        if let Some(slot) = results.get_mut(index) {
+            *slot = JsValue::Object(record);
+        }
+    }
+
+    let remaining = state.remaining.get().saturating_sub(1);
+    state.remaining.set(remaining);
+
+    if remaining == 0 {
+        // Every input has settled - fulfill the result promise with the records
+        let results = mem::take(&mut *state.results.borrow_mut());
+        let result_promise = state.result_promise.cheap_clone();
+        // Out of the shared state nothing traces the records until they are array elements
+        for record in &results {
+            if let JsValue::Object(obj) = record {
+                guard.guard(obj.cheap_clone());
+            }
+        }
+        let arr = interp.create_array_from(&guard, results);
+        fulfill_promise(interp, &result_promise, JsValue::Object(arr))?;
+    }
+
+    Ok(())
+}
+
 /// Promise.allSettled(iterable)
 pub fn promise_allsettled(
     interp: &mut Interpreter,
@@ -1026,14 +1088,11 @@ pub fn promise_allsettled(
         return Ok(Guarded::with_guard(JsValue::Object(promise), guard));
     }
 
-    // Pre-intern keys
-    let status_key = PropertyKey::String(interp.intern("status"));
-    let value_key = PropertyKey::String(interp.intern("value"));
-    let reason_key = PropertyKey::String(interp.intern("reason"));
-
+    // Records of the inputs that are already settled; pending inputs fill their slot later
     let mut results: Vec<JsValue> = Vec::with_capacity(promises.len());
+    let mut pending: Vec<(usize, Gc<JsObject>)> = Vec::new();
 
-    for promise_value in &promises {
+    for (index, promise_value) in promises.iter().enumerate() {
         let (status, result) = if let JsValue::Object(obj) = promise_value {
             let obj_ref = obj.borrow();
             if let ExoticObject::Promise(ref state) = obj_ref.exotic {
@@ -1046,34 +1105,77 @@ pub fn promise_allsettled(
             (PromiseStatus::Fulfilled, Some(promise_value.clone()))
         };
 
-        let result_obj = interp.create_object(&guard);
-        {
-            let mut result_ref = result_obj.borrow_mut();
-            result_ref.prototype = Some(interp.object_prototype.cheap_clone());
-
-            match status {
-                PromiseStatus::Fulfilled => {
-                    result_ref
-                        .set_property(status_key.clone(), JsValue::String("fulfilled".into()));
-                    result_ref
-                        .set_property(value_key.clone(), result.unwrap_or(JsValue::Undefined));
-                }
-                PromiseStatus::Rejected => {
-                    result_ref.set_property(status_key.clone(), JsValue::String("rejected".into()));
-                    result_ref
-                        .set_property(reason_key.clone(), result.unwrap_or(JsValue::Undefined));
-                }
-                PromiseStatus::Pending => {
-                    result_ref.set_property(status_key.clone(), JsValue::String("pending".into()));
+        match status {
+            PromiseStatus::Fulfilled | PromiseStatus::Rejected => {
+                let record = create_settled_record(
+                    interp,
+                    &guard,
+                    result.unwrap_or(JsValue::Undefined),
+                    status == PromiseStatus::Fulfilled,
+                );
+                results.push(JsValue::Object(record));
+            }
+            PromiseStatus::Pending => {
+                results.push(JsValue::Undefined);
+                if let JsValue::Object(obj) = promise_value {
+                    pending.push((index, obj.cheap_clone()));
                 }
             }
         }
-        results.push(JsValue::Object(result_obj));
     }
 
-    let arr = interp.create_array_from(&guard, results);
-    let promise = create_fulfilled_promise(interp, &guard, JsValue::Object(arr));
-    Ok(Guarded::with_guard(JsValue::Object(promise), guard))
+    // Nothing pending: the result is known now
+    if pending.is_empty() {
+        let arr = interp.create_array_from(&guard, results);
+        let promise = create_fulfilled_promise(interp, &guard, JsValue::Object(arr));
+        return Ok(Guarded::with_guard(JsValue::Object(promise), guard));
+    }
+
+    // Otherwise the result promise stays pending until the last input has settled
+    let result_promise = create_promise(interp, &guard);
+
+    let shared_state = Rc::new(PromiseAllSharedState {
+        remaining: Cell::new(pending.len()),
+        results: RefCell::new(results),
+        result_promise: result_promise.cheap_clone(),
+        rejected: Cell::new(false),
+    });
+
+    for (index, promise_obj) in &pending {
+        let promise_obj_ref = promise_obj.borrow();
+        if let ExoticObject::Promise(ref state) = promise_obj_ref.exotic {
+            let on_fulfilled = interp.create_object(&guard);
+            {
+                let mut f = on_fulfilled.borrow_mut();
+                f.prototype = Some(interp.function_prototype.cheap_clone());
+                f.exotic = ExoticObject::Function(JsFunction::PromiseAllSettledSettle {
+                    state: shared_state.clone(),
+                    index: *index,
+                    is_fulfill: true,
+                });
+            }
+
+            let on_rejected = interp.create_object(&guard);
+            {
+                let mut f = on_rejected.borrow_mut();
+                f.prototype = Some(interp.function_prototype.cheap_clone());
+                f.exotic = ExoticObject::Function(JsFunction::PromiseAllSettledSettle {
+                    state: shared_state.clone(),
+                    index: *index,
+                    is_fulfill: false,
+                });
+            }
+
+            let mut state_mut = state.borrow_mut();
+            state_mut.handlers.push(PromiseHandler {
+                on_fulfilled: Some(JsValue::Object(on_fulfilled)),
+                on_rejected: Some(JsValue::Object(on_rejected)),
+                result_promise: result_promise.cheap_clone(),
+            });
+        }
+    }
+
+    Ok(Guarded::with_guard(JsValue::Object(result_promise), guard))
 }
 
 /// Promise.any(iterable)
